@@ -879,6 +879,60 @@ impl Family for LengthForms {
     }
 }
 
+/// long data for two parameters of one statement in every arrival order of up to five chunks
+/// (a, b, ab, ba, aba, abab, baab, ...): each parameter's value is the concatenation of its own
+/// chunks in arrival order, whatever was interleaved
+struct InterleavedChunks;
+impl InterleavedChunks {
+    fn order(idx: u64) -> Vec<u16> {
+        // lengths 1..=5, each position parameter 0 or 1
+        let mut i = idx;
+        for n in 1..=5u32 {
+            let c = 1u64 << n;
+            if i < c {
+                return (0..n).map(|k| ((i >> k) & 1) as u16).collect();
+            }
+            i -= c;
+        }
+        unreachable!()
+    }
+}
+impl Family for InterleavedChunks {
+    fn ambient(&self, idx: u64) -> u64 {
+        crate::engine::rot(idx)
+    }
+    fn name(&self) -> String {
+        "long-data-chunks-for-two-parameters-in-every-order".into()
+    }
+    fn len(&self) -> u64 {
+        2 + 4 + 8 + 16 + 32
+    }
+    fn run(&self, idx: u64, st: &mut Stats) -> Result<(), Violation> {
+        let order = Self::order(idx);
+        st.nontrivial += 1;
+        st.bump("interleaved_chunks");
+        let mut payloads = vec![with_byte(COM_STMT_PREPARE, b"id=1 p=3")];
+        for (k, p) in order.iter().enumerate() {
+            payloads.push(cmd_long(1, *p, format!("<{}:{}>", p, k).as_bytes()));
+        }
+        let has = |p: u16| order.contains(&p);
+        let prm = |p: u16, inline: &[u8]| ExecParam { ty: 0xfc, unsigned: false, wire: if has(p) { None } else { Some({ let mut v = Vec::new(); put_lenenc_str(&mut v, inline); v }) }, long: has(p) };
+        let block = vec![prm(0, b"inline0"), prm(1, b"inline1"), ExecParam { ty: 0x03, unsigned: false, wire: Some(vec![9, 0, 0, 0]), long: false }];
+        payloads.push(cmd_execute(1, 0, 1, &exec_block(&block, true)));
+        // and once more with everything inline: nothing of the chunks may be left
+        let inline = vec![ExecParam { ty: 0xfc, unsigned: false, wire: Some(vec![1, b'x']), long: false }, ExecParam { ty: 0xfc, unsigned: false, wire: Some(vec![1, b'y']), long: false }, ExecParam { ty: 0x03, unsigned: false, wire: Some(vec![8, 0, 0, 0]), long: false }];
+        payloads.push(cmd_execute(1, 0, 1, &exec_block(&inline, false)));
+        super::registry::run_payloads(&payloads, &[], st).map(|_| ()).map_err(|mut v| {
+            v.key = format!("interleaved-chunks:{}", v.key);
+            v.msg = format!("chunks for parameters {:?} in this order: {}", order, v.msg);
+            v
+        })
+    }
+    fn describe(&self, idx: u64) -> J {
+        json!({"chunk_order_by_parameter": Self::order(idx)})
+    }
+}
+
 pub fn build(quick: bool) -> Check {
     let mut families: Vec<Box<dyn Family>> = vec![
         Box::new(Values::new(quick)),
@@ -894,6 +948,7 @@ pub fn build(quick: bool) -> Check {
         Box::new(AfterLongData),
         Box::new(AfterAbandonedLongData),
         Box::new(LengthForms),
+        Box::new(InterleavedChunks),
         Box::new(ExecHeader),
     ];
     if !quick {
@@ -902,12 +957,12 @@ pub fn build(quick: bool) -> Check {
     Check {
         id: "C08",
         level: "model_checking",
-        rule: "COM_STMT_EXECUTE parameter blocks built from semantic values by the independent encoder and run through the real run_on; the shim records (type, raw inner value) and applies the documented Into<T> for the corresponding Rust type under catch_unwind. Domains: TINY, SHORT, YEAR exhaustive (signed and unsigned); LONG/INT24/LONGLONG over every 2^k, 2^k+-1 and the bounds; FLOAT/DOUBLE lattices incl. subnormals and infinities; byte strings of every length 0..300 and the length-class edges for all 14 string-like type codes, 65535..65537 (and around 2^24 in thorough), and lengths 0..65536 sent with every legal longer prefix form (0xfc, 0xfd, 0xfe) for six string-like codes in two positions; every legal length form of DATE/DATETIME/TIMESTAMP (0,4,7,11; DATE with a time part raw only) and TIME (0,8,12) over boundary calendar values, every month with its first/28th/last days in five years, every hour x five day counts, microseconds of every decimal shape; negative TIME raw only; all 26 type codes (MYSQL_TYPE_NULL among them) x unsigned in four position classes next to every other type; consecutive executions of one statement binding every ordered pair of (type, unsigned) tables (one parameter: all 52^2, and all 52^2 with the executions alternating between two statements of the same shape - 1:T1, 2:T2, 1:T2, 2:T1; two parameters: all 12^4 over the integer codes, thorough: all 52^4 over every code; triples 12^3), values with the top bit set; parameter counts 0..17, 63, 64, 65, 255, 256, 300, 65529, 65535 (thorough: more around 2^15 and 2^16) with all 2^n NULL bitmaps for n <= 12 (8 in quick) and structured ones above; inline executions that follow an execution fed by 0..1.2 MB of long data, and the first inline executions of a statement prepared after 0..1.2 MB of another statement's long data was abandoned (CLOSE or re-PREPARE, same or other id); every value of the flags byte x iteration counts {0,1,2,2^32-1} x 5 handshake variants (among them one that mentions every capability the server did not offer). Oracle: exactly n parameters, type = bound code, raw value = encoded value, conversion = encoded value (zero dates and negative TIME have no chrono/Duration form and are checked raw).".into(),
+        rule: "COM_STMT_EXECUTE parameter blocks built from semantic values by the independent encoder and run through the real run_on; the shim records (type, raw inner value) and applies the documented Into<T> for the corresponding Rust type under catch_unwind. Domains: TINY, SHORT, YEAR exhaustive (signed and unsigned); LONG/INT24/LONGLONG over every 2^k, 2^k+-1 and the bounds; FLOAT/DOUBLE lattices incl. subnormals and infinities; byte strings of every length 0..300 and the length-class edges for all 14 string-like type codes, 65535..65537 (and around 2^24 in thorough), and lengths 0..65536 sent with every legal longer prefix form (0xfc, 0xfd, 0xfe) for six string-like codes in two positions; every legal length form of DATE/DATETIME/TIMESTAMP (0,4,7,11; DATE with a time part raw only) and TIME (0,8,12) over boundary calendar values, every month with its first/28th/last days in five years, every hour x five day counts, microseconds of every decimal shape; negative TIME raw only; all 26 type codes (MYSQL_TYPE_NULL among them) x unsigned in four position classes next to every other type; consecutive executions of one statement binding every ordered pair of (type, unsigned) tables (one parameter: all 52^2, and all 52^2 with the executions alternating between two statements of the same shape - 1:T1, 2:T2, 1:T2, 2:T1; two parameters: all 12^4 over the integer codes, thorough: all 52^4 over every code; triples 12^3), values with the top bit set; parameter counts 0..17, 63, 64, 65, 255, 256, 300, 65529, 65535 (thorough: more around 2^15 and 2^16) with all 2^n NULL bitmaps for n <= 12 (8 in quick) and structured ones above; long-data chunks for two parameters in every arrival order of up to five chunks; inline executions that follow an execution fed by 0..1.2 MB of long data, and the first inline executions of a statement prepared after 0..1.2 MB of another statement's long data was abandoned (CLOSE or re-PREPARE, same or other id); every value of the flags byte x iteration counts {0,1,2,2^32-1} x 5 handshake variants (among them one that mentions every capability the server did not offer). Oracle: exactly n parameters, type = bound code, raw value = encoded value, conversion = encoded value (zero dates and negative TIME have no chrono/Duration form and are checked raw).".into(),
         assumptions: vec!["wider integer, float and string domains are covered at lattices".into()],
         bounds: json!({"all_bitmaps_up_to_params": if quick {8} else {12}}),
         exhaustive: true,
         caps_hit: vec![],
         families,
-        required: vec!["execute_header_cases", "rebinds_changing_only_flags", "values_bound", "microsecond_forms", "second_bitmap_byte", "after_long_data", "after_abandoned_long_data", "length_prefix_forms"],
+        required: vec!["execute_header_cases", "rebinds_changing_only_flags", "values_bound", "microsecond_forms", "second_bitmap_byte", "after_long_data", "after_abandoned_long_data", "length_prefix_forms", "interleaved_chunks"],
     }
 }
